@@ -215,7 +215,9 @@ def allPrevAttached (att : List Change) (c : Change) : Bool := c.prev.all (hasId
 
 /-- `canAttachOrRemove` without the wait-list side effect: (attach, remove) -/
 def canAttach (att : List Change) (c : Change) : Bool × Bool :=
-  if allPrevAttached att c then
+  -- (fix-tree-noprev) only the root has no previous ids; any other such change is dropped
+  if c.prev.isEmpty then (false, true)
+  else if allPrevAttached att c then
     if hasId att c.snap then (true, false) else (false, true)
   else (false, false)
 
@@ -319,6 +321,25 @@ def reopen (cw : Perm → Bool) (keep : Bool) (l : Log) (t : TreeSt) : Bool :=
   match validateAll cw keep l t.attached t.rootId t.attached with
   | .ok () => true
   | .error _ => false
+
+/-! ## the local path (`AddContent`) -/
+
+/-- `AddContentWithValidator` (unencrypted, no snapshot): `prepareBuilderContent` refuses a key whose
+CURRENT permission cannot write; the change is built over all heads, citing the list's head record,
+signed with the key, validated like a received one, attached and persisted. `id` is the content id
+the real builder produced. -/
+def addContent (cw : Perm → Bool) (keep : Bool) (l : Log) (t : TreeSt) (id : Id) (a : Acc) :
+    Outcome × List Id × TreeSt :=
+  if !cw (permAfter l a) then (.err .noPerm, [], t) else
+  match l.getLast? with
+  | none => (.err .noRecord, [], t)
+  | some hd =>
+    let c : Change := ⟨id, false, a, hd.id, t.heads, t.rootId, false⟩
+    match validateChange cw keep l t.attached t.rootId c with
+    | .error e => (.err e, [], t)
+    | .ok () =>
+      (.ok, [id], { t with attached := t.attached ++ [c], heads := [id],
+                           stored := t.stored ++ [id], storedHeads := [id] })
 
 /-! ## whole-tree validation (`ValidateRawTreeDefault`) -/
 
